@@ -336,7 +336,7 @@ def schedule(rng, n, kind):
 KINDS = ["ascending", "descending", "interleaved", "permuted", "duplicates", "incomplete", "beyond"]
 
 
-def gen_cases(rng, tier):
+def _gen_cases_all(rng, tier):
     out = []
     def add(stream, line, key="c13"): out.append((stream, line, key))
     per = 8 if tier == "quick" else 60
@@ -423,3 +423,17 @@ def classify(line, impl, spec, model):
         hs = spec.split(" | ")[0]
         if impl.split(" | ")[0] == hs: return NONWF[comp]
     return None
+
+
+_SENT_TOKENS = {str(SENT), str(struct.unpack("<q", struct.pack("<d", float(SENT)))[0])}
+
+
+def gen_cases(rng, tier):
+    """the generated cases, minus the (rare) ones whose EXPECTED result contains the sentinel value the output buffer is pre-filled
+    with: a thread writing exactly that value cannot be told from a thread that did not write"""
+    out = []
+    for stream, line, key in _gen_cases_all(rng, tier):
+        arrays = re.findall(r"A:[0-9,]*:([-0-9,]*)", line)
+        if arrays and any(v in _SENT_TOKENS for v in arrays[-1].split(",")): continue
+        out.append((stream, line, key))
+    return out
